@@ -434,6 +434,11 @@ func cmdCheck(args []string) int {
 			unclaimedHit = append(unclaimedHit, r)
 			continue
 		}
+		if isFrameObl(r.O) && haveBaseline {
+			fmt.Printf("FRAME-LOST property=%s obligation=%s (the function's modifies-frame is not established on this tree: callers use it as an unchecked assumption, listed in the evidence)\n", *prop, r.O.Name)
+			frameLost = append(frameLost, r.O.Name)
+			continue
+		}
 		inBase := baseline[r.O.Name]
 		if !inBase && isSafetyKind(r.O.Kind) && haveBaseline {
 			// a new safety obligation: only a violation when the model replays on the real code
@@ -472,6 +477,11 @@ func cmdCheck(args []string) int {
 		if unclaimed[r.O.Name] {
 			fmt.Printf("UNCLAIMED property=%s obligation=%s status=%s (not discharged on the pinned tree either; not counted as proved)\n", *prop, r.O.Name, r.V.Status)
 			unclaimedHit = append(unclaimedHit, r)
+			continue
+		}
+		if isFrameObl(r.O) && haveBaseline {
+			fmt.Printf("FRAME-LOST property=%s obligation=%s status=%s (the function's modifies-frame is not established on this tree: callers use it as an unchecked assumption, listed in the evidence)\n", *prop, r.O.Name, r.V.Status)
+			frameLost = append(frameLost, r.O.Name)
 			continue
 		}
 		if baseline[r.O.Name] {
@@ -547,6 +557,16 @@ func lostCover(fn string, coversBad []*oblResult, baseline map[string]bool) stri
 	return ""
 }
 
+// isFrameObl: an obligation that establishes a "modifies" frame (at the exit of a function or as the automatic
+// loop invariant that carries it). A frame is an auxiliary lemma about memory, not a statement of any
+// property: when it is lost the callers fall back to using it as an (unchecked, reported) assumption - what
+// `assume-benign` says - and the run reports FRAME-LOST instead of a VIOLATION.
+func isFrameObl(o *Obligation) bool {
+	return o.Kind == "frame" || strings.Contains(o.Name, "/frame/")
+}
+
+var frameLost []string
+
 func isSafetyKind(k string) bool {
 	switch k {
 	case "index", "slice-bounds", "nil-deref", "type-assert", "div-zero", "nil-map-write", "nil-func", "nil-invoke", "panic", "make-len", "slice-to-array", "shift-negative":
@@ -596,6 +616,9 @@ func writeEvidence(prop, tier string, seed int, out *checkOutcome, discharged, f
 	var fns []fnEv
 	trusted := map[string]bool{}
 	assumptions := map[string]bool{}
+	for _, n := range frameLost {
+		assumptions["assumed effect (frame obligation NOT discharged on this tree): "+n] = true
+	}
 	for _, f := range out.funcs {
 		fns = append(fns, fnEv{shortKey(f.Key), f.Ints, len(f.Obls), f.Trusted, f.CalleeCons, f.Uncontracted, f.Unmodelled})
 		for _, t := range f.Trusted {
